@@ -37,6 +37,11 @@ CASES = [
     ("comm.py", "                self._thrd.thread_stop()\n                self._intf.stop()\n                raise\n", "                raise\n", "Comm", "def startCleansUp : Bool := false"),
     ("comm.py", "                    self._prev_read = _bytes\n                    return None, None\n                _bytes += rdata", "                    return None, None\n                _bytes += rdata", "Comm", "def hdrReturnsOnEmptyRead : Bool := false"),
     ("comm.py", "fread = self._get_frame(timeout=1.0)\n        if fread is None:  # pragma: no cover\n            return None\n\n        return self._parse.frame_cmninfo_decode(fread)", "fread = self._get_frame(timeout=2.0)\n        if fread is None:  # pragma: no cover\n            return None\n\n        return self._parse.frame_cmninfo_decode(fread)", "Comm", "def cmninfoTimeout : Nat := 20"),
+    ("comm.py", "if j == 1 and not self._channels.en_resync:", "if j >= 1 and not self._channels.en_resync:", "CfgShape", "translator_site_missing_CfgShape_enableWriteShape"),
+    ("comm.py", "                self._channels.div_resync = True\n                return\n", "                return\n", "CfgShape", "translator_site_missing_CfgShape_divWriteShape"),
+    ("comm.py", "        if self.dev.data.div_supported:\n            # send div request\n            self._nxslib_channels_div()", "        if True:\n            # send div request\n            self._nxslib_channels_div()", "CfgShape", "translator_site_missing_CfgShape_channelsWriteShape"),
+    ("nxscope.py", "            self.ch_disable_all(True)\n", "", "CfgShape", "translator_site_missing_CfgShape_disconnectShape"),
+    ("nxscope.py", "                        for que in self._sub_q[chan]:\n                            que.put(samples[chan])", "                        for que in self._sub_q[chan][:1]:\n                            que.put(samples[chan])", "CfgShape", "translator_site_missing_CfgShape_fanoutShape"),
 ]
 
 
